@@ -81,7 +81,8 @@ class Ctx:
         self.seed = seed
         self.rng = random.Random(seed * 1000003 + int(hashlib.sha1(pid.encode()).hexdigest()[:8], 16))
         self.t0 = time.time()
-        self.work = os.path.join(VERIF, ".work", pid)
+        # one scratch directory per run (two runs of the same property may overlap)
+        self.work = os.path.join(VERIF, ".work", "%s.%d" % (pid, os.getpid()))
         os.makedirs(self.work, exist_ok=True)
         self.evaluations = 0
         self.distinct = set()
@@ -369,6 +370,18 @@ def main():
         nviol = 1
         rc = 1
     write_evidence(ctx, level, nviol)
+    if rc == 0 and not os.environ.get("VERIF_KEEP_WORK"):
+        import shutil
+        shutil.rmtree(ctx.work, ignore_errors=True)
+    else:
+        # keep the scratch files of a failing run next to the replay, bounded
+        keep = os.path.join(VERIF, ".work", pid + ".last_failure")
+        import shutil
+        shutil.rmtree(keep, ignore_errors=True)
+        try:
+            os.rename(ctx.work, keep)
+        except OSError:
+            pass
     print("check %s tier=%s seed=%d: %s  (theorems %d/%d, corr %d, cases %d, distinct-nontrivial %d, %.1fs)" % (
         pid, tier, seed, "OK" if rc == 0 else "FAILED", ctx.discharged, ctx.obligations,
         ctx.corr_cases, ctx.evaluations, len(ctx.nontrivial), time.time() - ctx.t0))
